@@ -6,6 +6,7 @@ import EaselModel.Msa.LemmasWuss
 import EaselModel.Msa.LemmasRbb
 import EaselModel.Msa.LemmasDyck
 import EaselModel.Msa.LemmasFrag
+import EaselModel.Msa.LemmasC2W
 /-! # C15 — alignment transformations keep the alignment well formed and the residues intact; WUSS round trips
 
 Property theorems only; proofs are glue on the lemmas of `EaselModel/Msa/Lemmas*.lean`.
@@ -312,6 +313,30 @@ theorem wuss2ct_pairs_matched (ss : Bytes) (ct : List Nat) (h : wuss2ct ss = som
     (hi : ct.getD i 0 ≠ 0) (hlt : i < ct.getD i 0) : pairOk ss i (ct.getD i 0) :=
   wuss2ct_pairs_matched' ss ct h i hi hlt
 
+/-- for a NESTED pair table (no two pairs cross) `esl_wuss2ct` reads back exactly that table from ANY bracket labelling
+    of it (any mixture of the four bracket kinds, any unpaired symbols) -/
+theorem wuss2ct_of_labels (ss : Bytes) (ct : List Nat) (hct : CtOk ss.length ct) (hn : Nested ct) (hl : Labels ct ss) :
+    wuss2ct ss = some ct :=
+  wuss2ct_of_labels' ss ct hct hn hl
+
+/-- on a nested pair table `esl_ct2wuss` never enters its pseudoknot branch; when it returns `eslOK` the string has
+    `n` symbols and is a bracket labelling of the table -/
+theorem ct2wuss_nested_labels (n : Nat) (ct : List Nat) (hct : CtOk n ct) (hn : Nested ct) (ss : Bytes)
+    (h : ct2wuss ct = .ok ss) : ss.length = n ∧ Labels ct ss :=
+  ct2wuss_labels n ct hct hn ss h
+
+/-- NESTED ROUND TRIP `wuss2ct (ct2wuss ct) = ct` for every symmetric non-pseudoknotted pair table -/
+theorem nested_roundtrip (n : Nat) (ct : List Nat) (hct : CtOk n ct) (hn : Nested ct) (ss : Bytes)
+    (h : ct2wuss ct = .ok ss) : wuss2ct ss = some ct :=
+  nested_roundtrip' n ct hct hn ss h
+
+/-- ... in particular for the table of any bracket-only WUSS string: wuss -> ct -> wuss -> ct returns the same table
+    whenever the table of the string is nested (the hypothesis `hn`; with pseudoknot letters the tables need not be
+    nested and the round trip is PARTIAL: compared on every run against an independent reader, not proved) -/
+theorem wuss_ct_wuss_ct (ss ss2 : Bytes) (ct : List Nat) (h1 : wuss2ct ss = some ct) (hn : Nested ct)
+    (h2 : ct2wuss ct = .ok ss2) : wuss2ct ss2 = some ct :=
+  nested_roundtrip' ss.length ct (wuss2ct_ctOk ss ct h1) hn ss2 h2
+
 /-- `esl_msa_RemoveBrokenBasepairsFromSS`: on a balanced WUSS string the pair table handed to `esl_ct2wuss` holds
     EXACTLY the original pairs whose two partners are both retained (every other position is unpaired).
     (That the re-encoded string spells the same table is the `ct2wuss` round trip: checked on every run by the
@@ -350,6 +375,8 @@ example : (columnSubset exMsa [true, false, true, true]).msa.gc = [([0x66], [0x3
 example : removesOnlyGaps (· == 0x2d) [true, false, true, true] [0x41, 0x2d, 0x43, 0x47] := by simp [removesOnlyGaps]
 example : (sequenceSubset exMsa [false, true]).toOption.map (·.rows) = some [[0x41, 0x2d, 0x2d, 0x47]] := by decide
 example : wuss2ct [0x3c, 0x41, 0x3e, 0x61] = some [0, 3, 4, 1, 2] := by decide
+example : (ct2wuss [0, 8, 3, 2, 0, 6, 5, 0, 1]).toOption = some [0x28, 0x3c, 0x3e, 0x2c, 0x3c, 0x3e, 0x2c, 0x29] ∧
+    wuss2ct [0x28, 0x3c, 0x3e, 0x2c, 0x3c, 0x3e, 0x2c, 0x29] = some [0, 8, 3, 2, 0, 6, 5, 0, 1] := by decide
 example : balancedClass 0 [0x3c, 0x41, 0x3e, 0x61] ∧ balancedClass 1 [0x3c, 0x41, 0x3e, 0x61] := by
   unfold balancedClass; decide
 example : ¬ balancedClass 0 [0x3c, 0x29] := by unfold balancedClass; decide
